@@ -199,6 +199,27 @@ def main(rep, tier, only):
             cont = any(n.get("k") == "continue" for it in arms["partial"] for n in F.walk(it))
             if not why and not (grows and cont):
                 why = "the `partial` arm does not grow the output area and continue"
+            if not why:
+                # giving up on `partial` is right only when nothing was written ALTHOUGH there was room for any character
+                ifs = [x for it in arms["partial"] for x in F.walk(it, into_lambdas=False) if x.get("k") == "if"]
+                guarded = False
+                for x in ifs:
+                    gives_up = any(r.get("k") == "return" for r in F.walk(x.get("then"), into_lambdas=False))
+                    if not gives_up:
+                        continue
+                    c = T.snorm(u, fn, x.get("cond"))
+                    def conj(t):
+                        return conj(t[2]) + conj(t[3]) if isinstance(t, tuple) and t and t[0] == "b" and t[1] == "&&" else [T.show(t).replace(" ", "")]
+                    parts = conj(c)
+                    top_or = isinstance(c, tuple) and c and c[0] == "b" and c[1] == "||"
+                    has_written = any(re.search(r"==0\)?$", x_) and "write_data()" in x_ or x_.endswith("==0)") for x_ in parts)
+                    has_room = any(".write_size()>=" in x_ or "<=%s.write_size()" % BUF in x_ for x_ in parts)
+                    guarded = (not top_or) and has_written and has_room
+                    if not guarded:
+                        why = ("the `partial` arm gives up under `%s`: it may only do so when nothing was written AND the write area had room for any "
+                               "single character (otherwise a valid string is reported as unconvertible / an unconvertible one loops)" % T.show(c))
+                if not why and not ifs:
+                    pass
             re_ = returns(arms["error"])
             if not why and any(BUF in r or "r_a0" in r for r in re_):
                 why = "the `error` arm returns a string"
@@ -306,6 +327,21 @@ def main(rep, tier, only):
         exp = [n for (n, d, q) in L.calls_in(ui, i.get("body")) if q == "fcppt::io::expect"]
         ok = len(exp) >= 3
         (rep.ok if ok else rep.fail)("VEC-IO", "one_dimensional_input|expect", F.primary_site(i), F.describe(i)[:140], **({"how": "%d expect() calls" % len(exp)} if ok else {"why": "input does not check all three delimiters with io::expect"}))
+    # ---------------- ENUM-IO: stream output keeps the LENGTH of the name (a string_view is not NUL-terminated)
+    seen = set()
+    for fn in db.fns("fcppt::enum_::output"):
+        u = fn["_unit"]
+        if F.primary_site(fn) in seen:
+            continue
+        seen.add(F.primary_site(fn))
+        rets = [r for r in F.walk(fn.get("body"), into_lambdas=False) if r.get("k") == "return"]
+        t = T.show(T.snorm(u, fn, rets[0]["e"])) if rets else ""
+        raw = [n for n in F.walk(fn.get("body")) if n.get("k") == "call" and (T.callee_qn(u, n) or "").endswith("basic_string_view::data")]
+        ok = "to_string(" in t and not raw
+        (rep.ok if ok else rep.fail)("ENUM", "enum_::output", F.primary_site(fn), F.describe(fn)[:140],
+                                     **({"how": "streams the whole name returned by to_string"} if ok else
+                                        {"why": "output streams %s: a raw data() pointer drops the view's length (names need not be NUL-terminated), so output and input no longer agree" % t}))
+        break
     # ---------------- EXTR
     seen = set()
     for fn in db.fns("fcppt::extract_from_string_locale"):
